@@ -13,6 +13,14 @@ Theorem C11_no_public_method_touches_shared_state_unlocked :
   forallb (fun m => negb (m_public m) || match m_unlocked m with [] => true | _ => false end) (lock_table_v1 ++ lock_table_v2) = true.
 Proof. exact no_public_unlocked_access. Qed.
 
+(* every public method - the batch calls, table management and the test helpers included - enters at most one critical
+   section per call (an upper bound computed over the call graph read from the sources; a callee inside a loop counts
+   as several): that section is the instant at which the call takes effect.  Before the repairs aae4d34 / 14eb346 the
+   batch calls entered one section per request and this theorem was false of the generated tables. *)
+Theorem C11_one_critical_section_per_call :
+  one_section_per_call lock_table_v1 = true /\ one_section_per_call lock_table_v2 = true.
+Proof. exact clients_one_section_per_call. Qed.
+
 (* under the mutex semantics, the accesses of any concurrent execution are ordered as a serial execution of whole
    critical sections (each data operation is one critical section) *)
 Theorem C11_mutex_serializes :
